@@ -1,5 +1,8 @@
 INIT Init
 NEXT Next
-CONSTANT Thorough = TRUE
+CONSTANTS
+  Thorough = TRUE
+  Shard = 1
+  NShards = 8
 INVARIANTS WF Emit
 CHECK_DEADLOCK FALSE
